@@ -90,26 +90,92 @@ class Sched:
         self.lockset_violations = []   # (tid, function) state helper entered without the lock
         self.max_steps = max_steps
         self.abort = False
+        self.deadlock = False
+        self.step_limit = False
+        self.step = 0
         self.cache_lock = None
+        self.cache = None
+        self.base_cls = dict
+        self.where = [None] * nthreads  # per thread: names of the cacheutils frames on its stack at its pending
+        #                                 instruction (innermost first); lets a chooser pre-empt INSIDE a given method
+        self.track_stack = False
+        self.state_funcs = STATE_FUNCS  # helpers that must only run under the lock (the translator's list, if given)
 
-    def yield_point(self, tid):
+    # The baton: exactly one worker runs at a time.  At every scheduling point the RUNNING worker itself asks the
+    # chooser who goes next; if it is chosen again it simply continues (no thread hand-off - this is what makes
+    # long runs of one thread cheap), otherwise it wakes the chosen thread and parks.  One call of `choose` =
+    # one instruction (or one attempt to take the lock) executed by the chosen thread, exactly as when a
+    # central loop made every choice.
+    def runnable(self):
+        return [i for i in range(self.n) if not self.done[i]
+                and (self.blocked[i] is None or self.blocked[i].owner in (None, i))]
+
+    def _abort_all(self, me):
+        self.abort = True
+        for i in range(self.n):
+            if i != me and not self.done[i]:
+                self.sems[i].release()
+
+    def dispatch(self, tid, finished=False):
         if self.abort:
+            if finished:
+                return
             raise StepLimit()
-        self.main.release()
+        runnable = self.runnable()
+        if not runnable:
+            if not all(self.done):
+                self.deadlock = True
+                self._abort_all(tid)
+            if finished:
+                return
+            raise StepLimit()
+        if self.step >= self.max_steps:
+            self.step_limit = True
+            self._abort_all(tid)
+            if finished:
+                return
+            raise StepLimit()
+        nxt = self.choose(self.step, runnable)
+        if nxt not in runnable:
+            nxt = runnable[0]
+        self.choices.append(nxt)
+        self.step += 1
+        if nxt == tid:
+            return
+        self.sems[nxt].release()
+        if finished:
+            return
         self.sems[tid].acquire()
         if self.abort:
             raise StepLimit()
 
+    def yield_point(self, tid):
+        self.dispatch(tid)
+
     def tracer(self, tid):
         def local(frame, event, arg):
             if event == 'opcode':
+                if self.track_stack:
+                    names = []
+                    f = frame
+                    while f is not None and len(names) < 8:
+                        if f.f_code.co_filename == self.cu_file:
+                            names.append(f.f_code.co_name)
+                        f = f.f_back
+                    self.where[tid] = names
                 self.yield_point(tid)
             return local
 
         def glob(frame, event, arg):
             co = frame.f_code
             if co.co_filename == self.cu_file:
-                if co.co_name in STATE_FUNCS and self.cache_lock is not None:
+                slf = frame.f_locals.get('self')
+                if slf is not None and slf is not self.cache and self.cache is not None \
+                        and isinstance(slf, self.base_cls):
+                    return None     # a method of ANOTHER cache (a thread-private copy / update() argument): its
+                    #                 instructions are not pre-emption points of the shared cache's operations
+                if co.co_name in self.state_funcs and self.cache_lock is not None and \
+                        frame.f_locals.get('self') is self.cache:     # helpers of the SHARED cache only
                     if self.cache_lock.owner != tid:
                         self.lockset_violations.append((tid, co.co_name))
                 frame.f_trace_opcodes = True
@@ -118,12 +184,16 @@ class Sched:
         return glob
 
 
-def run(cu, programs, choose, make_cache, max_steps=200000):
+def run(cu, programs, choose, make_cache, max_steps=200000, state_funcs=None):
     """programs: list (one per thread) of lists of callables cache -> value.
     choose(step, runnable) -> tid.  Returns dict with cache, results, schedule, acquire_log, ..."""
     n = len(programs)
     s = Sched(n, choose, cu.__file__, max_steps)
     SLock.sched = s
+    if state_funcs:
+        s.state_funcs = set(state_funcs)
+    if hasattr(choose, 'attach'):      # choosers that look at the threads' positions (focus schedules)
+        choose.attach(s)
     old_rlock = cu.RLock
     cu.RLock = SLock
     try:
@@ -131,6 +201,8 @@ def run(cu, programs, choose, make_cache, max_steps=200000):
     finally:
         cu.RLock = old_rlock
     s.cache_lock = getattr(cache, '_lock', None)
+    s.cache = cache
+    s.base_cls = getattr(cu, 'LRI', dict)
     results = [[] for _ in range(n)]
     op_log = []   # (tid, op index) in completion order
 
@@ -150,7 +222,7 @@ def run(cu, programs, choose, make_cache, max_steps=200000):
         finally:
             sys.settrace(None)
             s.done[tid] = True
-            s.main.release()
+            s.dispatch(tid, finished=True)      # hand the baton on
 
     ths = []
     for i in range(n):
@@ -158,34 +230,13 @@ def run(cu, programs, choose, make_cache, max_steps=200000):
         t.bv_tid = i
         t.start()
         ths.append(t)
-    step = 0
-    deadlock = False
-    while not all(s.done):
-        runnable = [i for i in range(n) if not s.done[i]
-                    and (s.blocked[i] is None or s.blocked[i].owner in (None, i))]
-        if not runnable:
-            deadlock = True
-            s.abort = True
-            for i in range(n):
-                if not s.done[i]:
-                    s.sems[i].release()
-            break
-        if step >= max_steps:
-            s.abort = True
-            for i in range(n):
-                if not s.done[i]:
-                    s.sems[i].release()
-                    s.main.acquire()
-            break
-        tid = choose(step, runnable)
-        if tid not in runnable:
-            tid = runnable[0]
-        s.choices.append(tid)
-        step += 1
-        s.sems[tid].release()
-        s.main.acquire()
+    s.dispatch(None, finished=True)             # the first choice; from here on the workers schedule themselves
     for t in ths:
-        t.join(timeout=5)
-    return {'cache': cache, 'results': results, 'steps': step, 'schedule': s.choices,
+        t.join(timeout=20)
+    if any(t.is_alive() for t in ths):
+        s._abort_all(None)
+        for t in ths:
+            t.join(timeout=5)
+    return {'cache': cache, 'results': results, 'steps': s.step, 'schedule': s.choices,
             'acquire_log': s.acquire_log, 'lockset_violations': s.lockset_violations,
-            'deadlock': deadlock, 'step_limit': step >= max_steps, 'op_log': op_log}
+            'deadlock': s.deadlock, 'step_limit': s.step_limit, 'op_log': op_log}
